@@ -4,7 +4,11 @@
 // sequence, oracle after EVERY prefix), grouped by multiset so that every
 // permutation of the same samples is compared (order independence), every
 // Trim predicate as a subset of the cells of small tables, and the numerical
-// aggregator with nearest-rank accept-sets.
+// aggregator with nearest-rank accept-sets. On top of that: every history a
+// second time without accessor calls before the end (accessors must not change
+// state), every sequence of samples and Trims on one long-lived table
+// (trimops.go), and the size families (size.go): one fixed history per shape
+// for n = 0..70 and around every power of two.
 package main
 
 import (
@@ -59,12 +63,14 @@ type family struct {
 	alpha   []string
 	maxLen  int
 	ordered bool // compare all permutations of a multiset (S7)
-	run     func(samples []string) (result, []*fail)
+	runAt   func(samples []string, cp checkAt) (result, []*fail)
 }
 
-func one(f func([]string) result) func([]string) (result, []*fail) {
-	return func(s []string) (result, []*fail) {
-		r := f(s)
+func (f *family) run(samples []string) (result, []*fail) { return f.runAt(samples, everyPrefix) }
+
+func one(f func([]string, checkAt) result) func([]string, checkAt) (result, []*fail) {
+	return func(s []string, cp checkAt) (result, []*fail) {
+		r := f(s, cp)
 		if r.f != nil {
 			return r, []*fail{r.f}
 		}
@@ -83,18 +89,18 @@ func families(quick bool) []family {
 	keys := []string{"a", "b", ""}
 	subs := []string{"x", "y", ""}
 	fs := []family{
-		{name: "counter", alpha: counterAlphabet(incs), maxLen: pick(4, 5), ordered: true, run: one(runCounter)},
-		{name: "subkey", alpha: pairAlphabet(keys, subs, incs, "\x00"), maxLen: pick(3, 4), ordered: true, run: one(runSubKey)},
+		{name: "counter", alpha: counterAlphabet(incs), maxLen: pick(4, 5), ordered: true, runAt: one(runCounterAt)},
+		{name: "subkey", alpha: pairAlphabet(keys, subs, incs, "\x00"), maxLen: pick(3, 4), ordered: true, runAt: one(runSubKeyAt)},
 	}
 	for _, d := range []string{"\x00", "::"} {
 		d := d
 		fs = append(fs, family{name: "table", config: d, alpha: pairAlphabet(keys, subs, incs, d), maxLen: pick(3, 4), ordered: true,
-			run: one(func(s []string) result { return runTable(d, s) })})
+			runAt: one(func(s []string, cp checkAt) result { return runTableAt(d, s, cp) })})
 	}
 	for i := range accPrograms {
 		p := &accPrograms[i]
 		fs = append(fs, family{name: "accum", config: p.name, alpha: p.alphabet, maxLen: pick(4, 5), ordered: true,
-			run: one(func(s []string) result { return runAccum(p, s) })})
+			runAt: one(func(s []string, cp checkAt) result { return runAccumAt(p, s, cp) })})
 	}
 	var nums []string
 	for i, y := range numSymbols {
@@ -106,7 +112,7 @@ func families(quick bool) []family {
 	for _, cfg := range []string{"keep", "keep-reverse", "nokeep"} {
 		cfg := cfg
 		fs = append(fs, family{name: "numerical", config: cfg, alpha: nums, maxLen: pick(5, 6), ordered: true,
-			run: func(s []string) (result, []*fail) { return runNumerical(cfg, s) }})
+			runAt: func(s []string, cp checkAt) (result, []*fail) { return runNumericalAt(cfg, s, numLookup, cp) }})
 	}
 	var large []string
 	for _, y := range numLarge {
@@ -115,7 +121,7 @@ func families(quick bool) []family {
 	for _, cfg := range []string{"keep-large", "nokeep-large"} {
 		cfg := cfg
 		fs = append(fs, family{name: "numerical", config: cfg, alpha: large, maxLen: pick(4, 6), ordered: true,
-			run: func(s []string) (result, []*fail) { return runNumerical(cfg, s) }})
+			runAt: func(s []string, cp checkAt) (result, []*fail) { return runNumericalAt(cfg, s, numLookup, cp) }})
 	}
 	return fs
 }
@@ -246,6 +252,14 @@ func worker(w *runner.W) {
 					w.Add("transitions", int64(res.transitions))
 					w.Add("sequences_"+fam.name, 1)
 					report(w, c, fails)
+					if len(fails) == 0 && n >= 1 {
+						f, tr := checkSilent(&fam, samples, res)
+						w.Add("transitions", int64(tr))
+						w.Add("runs_without_accessor_calls", 1)
+						if f != nil {
+							w.Violation(f.sig, f.detail, c)
+						}
+					}
 					if len(fails) == 0 || (fam.name == "numerical" && !res.fatal) {
 						w.Outcome(fam.name, fam.config, res.state)
 						if fam.ordered {
@@ -327,6 +341,77 @@ func worker(w *runner.W) {
 		})
 	}
 
+	// --- Trim histories: every sequence of samples and Trims on one long-lived table
+	seqOps := trimSeqOps()
+	for n := 0; n <= trimSeqDepth(quick) && !expired; n++ {
+		forEachOpSequence(seqOps, n, func(ops []string) bool {
+			caseNo++
+			if !w.Owns(caseNo) {
+				return true
+			}
+			if w.Expired() {
+				expired = true
+				return false
+			}
+			c := Case{Family: "trimseq", Config: "\x00", Samples: ops}
+			w.SetCase(func() any { return c })
+			nTrim := 0
+			for _, op := range ops {
+				if op[0] == 'T' {
+					nTrim++
+				}
+			}
+			for _, f := range runTrimSeq(ops, func(r result) {
+				w.Add("transitions", int64(r.transitions))
+				w.Add("trim_history_executions", 1)
+				if r.f == nil {
+					w.Outcome("trimseq", r.state)
+				}
+			}) {
+				w.Violation(f.sig, f.detail, c)
+			}
+			w.Eval(nTrim >= 1 && len(ops) >= 2)
+			w.Add("trim_histories", 1)
+			return true
+		})
+	}
+
+	// --- size families
+	for si := range sizeShapes {
+		sh := &sizeShapes[si]
+		max := sh.maxQ
+		if !quick {
+			max = sh.maxT
+		}
+		for _, cfg := range sh.cfgs {
+			for _, n := range sizesUpTo(max) {
+				caseNo++
+				if expired || !w.Owns(caseNo) {
+					continue
+				}
+				if w.Expired() {
+					expired = true
+					break
+				}
+				c := Case{Family: "size", Config: sizeConfig(sh, cfg), N: n, Samples: []string{}}
+				w.SetCase(func() any { return c })
+				fails := runSizeCase(c.Config, n, func(r result, samples int) {
+					w.Add("transitions", int64(r.transitions))
+					w.Add("size_family_executions", 1)
+					w.Max("size_family_longest_history", int64(samples))
+					if r.f == nil {
+						w.Outcome("size", c.Config, sizeClass(n), r.state)
+					}
+					w.Eval(samples >= 2 && r.accepted >= 1)
+				})
+				for _, f := range fails {
+					w.Violation(f.sig, f.detail, c)
+				}
+				w.Add("size_family_cases", 1)
+			}
+		}
+	}
+
 	// --- splitter
 	delims := []string{"\x00", ":", "::", "ab", ":a", ":::"}
 	maxLen := 6
@@ -376,6 +461,93 @@ func worker(w *runner.W) {
 	}
 }
 
+// sizeRule describes the size families for the evidence.
+func sizeRule(quick bool) string {
+	var parts []string
+	for i := range sizeShapes {
+		sh := &sizeShapes[i]
+		max := sh.maxT
+		if quick {
+			max = sh.maxQ
+		}
+		cfg := ""
+		if len(sh.cfgs) > 1 || sh.cfgs[0] != "" {
+			cfg = fmt.Sprintf(" x configurations %q", sh.cfgs)
+		}
+		parts = append(parts, fmt.Sprintf("%s/%s (n <= %d)%s", sh.agg, sh.shape, max, cfg))
+	}
+	return "Size families: one fixed history per shape, parametrised by n (number of distinct keys / sub-keys / columns / rows / groups / samples, length of a name, magnitude 2^n of an increment), element i carrying i, for n = 0..70 and 2^k-1, 2^k, 2^k+1 (k >= 7) up to the shape's bound, same reference fold and accessor comparison (after every prefix up to 70 samples, around every power of two, at the end): " + strings.Join(parts, "; ") +
+		". The sub-key shapes let every new sub-key sort after (ascending), in front of (descending) and in the middle of (middle-out) the existing ones and add sub-keys in front/middle/after to a counter that already has n rows; the trim shapes trim n rows (columns) by index classes, sample removed rows/columns again, trim a whole column (row), re-create it, trim twice more, trim everything and sample again."
+}
+
+func trimSeqDepth(quick bool) int {
+	if quick {
+		return 4
+	}
+	return 5
+}
+
+// checkSilent: accessors must not change state. The history is applied again
+// to a fresh object WITHOUT any accessor call before the last sample; the
+// final state must satisfy the oracle and equal the state of the run in which
+// every accessor was called after every prefix (res).
+func checkSilent(fam *family, samples []string, res result) (f *fail, transitions int) {
+	silent, sf := fam.runAt(samples, finalOnly)
+	sig := "C07/" + fam.name + "/result-depends-on-accessor-calls"
+	if len(sf) > 0 {
+		return failf(sig, "the history gives the fold's result when every accessor is called after every sample, but not when no accessor is called before the end: %s [%s]", sf[0].detail, sf[0].sig), silent.transitions
+	}
+	if silent.state != res.state {
+		return failf(sig, "final state with accessor calls after every sample: %s\nfinal state without accessor calls: %s\n%s", res.state, silent.state, history(samples, len(samples))), silent.transitions
+	}
+	return nil, silent.transitions
+}
+
+// runTrimSeq: one Trim history with the accessors compared after every
+// operation and, if that holds, once more without accessor calls before the end.
+func runTrimSeq(ops []string, each func(result)) (fails []*fail) {
+	r := runTableOps("\x00", ops, everyPrefix)
+	each(r)
+	if r.f != nil {
+		return []*fail{r.f}
+	}
+	if len(ops) == 0 {
+		return nil
+	}
+	r2 := runTableOps("\x00", ops, finalOnly)
+	each(r2)
+	if r2.f != nil {
+		return []*fail{failf("C07/trim/result-depends-on-accessor-calls", "the history satisfies the oracle when every accessor is called after every operation, but not when no accessor is called before the end: %s [%s]", r2.f.detail, r2.f.sig)}
+	}
+	return nil
+}
+
+// runSizeCase: one size case with the accessors compared at the size
+// checkpoints and, if that holds, once more without accessor calls before the end.
+func runSizeCase(config string, n int, each func(r result, samples int)) (fails []*fail) {
+	r, fs, ns := runSize(config, n, sizeCheckpoints)
+	each(r, ns)
+	if len(fs) > 0 {
+		for _, f := range fs {
+			fails = append(fails, sizeSig(f))
+		}
+		return
+	}
+	if ns == 0 {
+		return nil
+	}
+	r2, fs2, _ := runSize(config, n, finalOnly)
+	each(r2, ns)
+	agg := config[:strings.Index(config, "/")]
+	switch {
+	case len(fs2) > 0:
+		fails = append(fails, failf("C07/"+agg+"/result-depends-on-accessor-calls/size-family", "the history satisfies the oracle when the accessors are called at the checkpoints, but not when no accessor is called before the end: %s [%s]", fs2[0].detail, fs2[0].sig))
+	case agg != "trim" && r2.state != r.state:
+		fails = append(fails, failf("C07/"+agg+"/result-depends-on-accessor-calls/size-family", "final state with accessor calls: %.300s\nfinal state without: %.300s", r.state, r2.state))
+	}
+	return
+}
+
 func replay(w *runner.W, raw json.RawMessage) {
 	var c Case
 	if err := json.Unmarshal(raw, &c); err != nil {
@@ -383,20 +555,18 @@ func replay(w *runner.W, raw json.RawMessage) {
 	}
 	var fails []*fail
 	switch c.Family {
-	case "counter":
-		_, fails = one(runCounter)(c.Samples)
-	case "subkey":
-		_, fails = one(runSubKey)(c.Samples)
-	case "table":
-		_, fails = one(func(s []string) result { return runTable(c.Config, s) })(c.Samples)
-	case "accum":
-		p := accProgramByName(c.Config)
-		if p == nil {
-			panic("unknown accumulator program " + c.Config)
+	case "counter", "subkey", "table", "accum", "numerical":
+		found := false
+		for _, fam := range families(false) {
+			if fam.name == c.Family && fam.config == c.Config {
+				_, fails = fam.run(c.Samples)
+				found = true
+				break
+			}
 		}
-		_, fails = one(func(s []string) result { return runAccum(p, s) })(c.Samples)
-	case "numerical":
-		_, fails = runNumerical(c.Config, c.Samples)
+		if !found {
+			panic("unknown family/configuration " + c.Family + " " + c.Config)
+		}
 	case "trim":
 		sel := map[string]bool{}
 		for _, k := range c.TrimCells {
@@ -412,13 +582,26 @@ func replay(w *runner.W, raw json.RawMessage) {
 		if r := runSplitter(c.Config, c.Samples[0]); r.f != nil {
 			fails = append(fails, r.f)
 		}
+	case "trimseq":
+		// the map order inside Trim is chosen by the Go runtime: repeat
+		for i := 0; i < 8 && len(fails) == 0; i++ {
+			fails = runTrimSeq(c.Samples, func(result) {})
+		}
+	case "size":
+		reps := 1
+		if strings.HasPrefix(c.Config, "trim/") {
+			reps = 8
+		}
+		for i := 0; i < reps && len(fails) == 0; i++ {
+			fails = runSizeCase(c.Config, c.N, func(result, int) {})
+		}
 	default:
 		panic("unknown family " + c.Family)
 	}
 	report(w, c, fails)
 	// order dependence is a property of two runs: replay the recorded order
 	// against the sorted order of the same samples
-	if len(fails) == 0 && c.Family != "trim" && c.Family != "splitter" {
+	if len(fails) == 0 && c.Family != "trim" && c.Family != "splitter" && c.Family != "trimseq" && c.Family != "size" {
 		replayOrder(w, c)
 	}
 }
@@ -434,10 +617,15 @@ func replayOrder(w *runner.W, c Case) {
 				sorted[j], sorted[j-1] = sorted[j-1], sorted[j]
 			}
 		}
-		a, _ := fam.run(c.Samples)
+		a, fa := fam.run(c.Samples)
 		b, _ := fam.run(sorted)
 		if a.orderKey != b.orderKey {
 			w.Violation("C07/"+fam.name+"/order-dependent", fmt.Sprintf("order 1 %q -> %s\norder 2 %q -> %s", c.Samples, a.orderKey, sorted, b.orderKey), c)
+		}
+		if len(fa) == 0 && len(c.Samples) >= 1 {
+			if f, _ := checkSilent(&fam, c.Samples, a); f != nil {
+				w.Violation(f.sig, f.detail, c)
+			}
 		}
 		return
 	}
@@ -463,7 +651,8 @@ func main() {
 				" and, with keep and no-keep, length 0.." + pick("4", "6") + " over the large-magnitude symbols {1e9+4,1e9+7,1e9+13,1e9+16,1e15,1e15+1,-1e12-3,1} (unit-size spread at huge magnitude, identical huge values by repetition; reference moments computed exactly with rationals; tolerance 1e-9 relative + 1e-12 of the largest |sample|)" +
 				"; each sequence is applied to a fresh object and every public accessor is compared with an independent fold after every prefix; sequences are enumerated as all distinct permutations of every multiset and the accessor states of all permutations are compared (order independence). Trim: every table on grids up to 2x3" + pick("", " and 3x2") + " with cells in {absent," + pick("2,-1", "2,-1,0") +
 				"} (every row/column non-empty), built in 3 different cell orders, x EVERY subset of the grid cells as predicate x {no follow-up sample, one more sample into each grid cell, a new row, a new column}. Splitter: every string up to length " + pick("6", "8") +
-				" over {a,b,':',NUL} x delimiters {NUL,':','::','ab',':a',':::'}. states = distinct canonical accessor states reached (all prefixes are themselves enumerated sequences); transitions = Sample/Trim/Next operations applied to real objects. non-trivial = a sequence of >= 2 samples with >= 1 accepted sample; a Trim with a non-empty selection on a table of >= 2 cells; a splitter input containing the delimiter"
+				" over {a,b,':',NUL} x delimiters {NUL,':','::','ab',':a',':::'}. Accessor independence: every enumerated sequence (and every Trim history and size case below) is applied a second time to a fresh object WITHOUT any accessor call before the last operation; the final accessor state must satisfy the oracle and equal that of the run with accessor calls. Trim histories (one long-lived table that is trimmed and sampled again): EVERY sequence of 0.." + pick("4", "5") +
+				" operations over {sample into each cell of the grid {a,b}x{x,y}, into a new row, into a new column; Trim with each of the 15 non-empty cell subsets of that grid, Trim of everything, Trim of the cells of the new row/column, Trim of nothing}, the Trim oracle applied at every Trim and every accessor compared after every operation. " + sizeRule(q) + " states = distinct canonical accessor states reached (all prefixes are themselves enumerated sequences); transitions = Sample/Trim/Next operations applied to real objects. non-trivial = a sequence of >= 2 samples with >= 1 accepted sample; a Trim with a non-empty selection on a table of >= 2 cells; a splitter input containing the delimiter"
 		},
 		Assumptions: func(string) []string {
 			return []string{
@@ -472,6 +661,8 @@ func main() {
 				"numerical moments are compared with |got-want| <= 1e-9*|want| + 1e-12*max|sample| (a stable one-pass algorithm is ~1000x inside this at every magnitude)",
 				"nearest-rank accepts index ceil(p*n)-1 or floor(p*n) (clamped); ties for the mode accept every most-frequent value; the sample standard deviation is only compared for n >= 2, min/max/mean for n >= 1",
 				"increments are applied with Go int64 wrap-around in both the implementation and the reference fold",
+				"size families: one fixed history per (shape, n), not all histories of that size; the accessors are compared after every prefix of up to 70 samples, around every power of two and at the end (not after every prefix), the reference is the same fold; numerical size shapes use generated decimal spellings whose value the generator states (nothing is parsed by the reference)",
+				"in a Trim history a column that lost its cells at a Trim but had an unselected absent cell stays acceptable-either-way until a sample makes it present again or a later Trim selects its whole grid column; totals are compared until the first Trim only",
 				"accumulator expressions are restricted to sumi, maxi, concatenation, group and column references whose value the reference computes itself; an arithmetic helper applied to a non-integer must give a non-integer text",
 			}
 		},
